@@ -67,9 +67,17 @@ def simplify(case):
         yield c
 
 
-def check_fp(ctx, what, obj, form, seen, history):
+def check_fp(ctx, what, obj, form, seen, history, mk=None):
     """fingerprints of the object and of all its subkeys against the reference computation"""
     ctx.checked()
+    if mk is not None:
+        # the subkeys the key has been given, by the fingerprints they had when they were made: every form of the key
+        # (copy, twin, protected, unlocked, re-imported) names the same ones
+        want_subs = sorted(ms.fp.hex().upper() for ms in mk.subs)
+        have_subs = sorted(str(sk.fingerprint).replace(' ', '') for sk in obj.subkeys.values())
+        if want_subs != have_subs:
+            ctx.viol('C18:subkey-fingerprint-changed:%s' % form, '%s: subkey fingerprints %s, the subkeys were made as %s'
+                     % (what, [x[-16:] for x in have_subs], [x[-16:] for x in want_subs]))
     ctx.probe('form_' + form)
     seen.add(form)
     try:
@@ -167,10 +175,10 @@ def execute(case, ctx):
     seen = set()
 
     def on_copy(h, name, old, new):
-        check_fp(ctx, 'copy of %s' % name, new, 'copy', seen, histories.setdefault(name, {}))
+        check_fp(ctx, 'copy of %s' % name, new, 'copy', seen, histories.setdefault(name, {}), h.model.get(name))
 
     def after_import(h, name, old, new, st):
-        check_fp(ctx, 're-imported %s' % name, new, 'reimported', seen, histories.setdefault(name, {}))
+        check_fp(ctx, 're-imported %s' % name, new, 'reimported', seen, histories.setdefault(name, {}), h.model.get(name))
 
     h = keyworld.KeyHistory(cfg['keys'], ctx, {'on_copy': on_copy, 'after_import': after_import})
     seams.clock().set(cfg.get('start_us', 1_600_000_000_000_000))
@@ -193,14 +201,14 @@ def execute(case, ctx):
         if step['op'] == 'add_subkey' and out == 'ok' and step.get('created_us') is not None:
             ctx.probe('subkey_created_differs')
         if k.is_public:
-            check_fp(ctx, 'public key %s after %s' % (name, step['op']), k, 'reimported', seen, hist)
+            check_fp(ctx, 'public key %s after %s' % (name, step['op']), k, 'reimported', seen, hist, mk)
             continue
         form = 'protected' if mk.passphrase is not None else 'private'
-        check_fp(ctx, '%s after %s' % (name, step['op']), k, form, seen, hist)
-        check_fp(ctx, 'public twin of %s after %s' % (name, step['op']), h.held_pub.get(name) or k.pubkey, 'twin', seen, dict(hist))
+        check_fp(ctx, '%s after %s' % (name, step['op']), k, form, seen, hist, mk)
+        check_fp(ctx, 'public twin of %s after %s' % (name, step['op']), h.held_pub.get(name) or k.pubkey, 'twin', seen, dict(hist), mk)
         if mk.passphrase is not None:
             with k.unlock(mk.passphrase):
-                check_fp(ctx, '%s unlocked after %s' % (name, step['op']), k, 'unlocked', seen, hist)
+                check_fp(ctx, '%s unlocked after %s' % (name, step['op']), k, 'unlocked', seen, hist, mk)
                 check_ids_written(ctx, '%s (unlocked)' % name, pgpy, k)
         else:
             check_ids_written(ctx, '%s after %s' % (name, step['op']), pgpy, k)
